@@ -144,25 +144,20 @@ def install_hooks():
     from malt.pyct import origin_info, parser, ast_util, anno
     if _installed:
         return
-    real_meta = api._ErrorMetadata
+    from malt.pyct import error_utils
+    real_init = error_utils.ErrorMetadataBase.__init__
 
-    class RecordingMetadata(real_meta):
-        __slots__ = ()
-
-        def __init__(self, callsite_tb, cause_metadata, cause_message, source_map, converter_filename):
-            try:
-                real_meta.__init__(self, callsite_tb, cause_metadata, cause_message, source_map, converter_filename)
-                res = self
-            except IndexError:
-                REC.attach.append((tb_tuples(callsite_tb), cause_metadata, cause_message, source_map,
-                                   converter_filename, 'crash'))
-                raise
+    def recording_init(self, callsite_tb, cause_metadata, cause_message, source_map, converter_filename):
+        try:
+            real_init(self, callsite_tb, cause_metadata, cause_message, source_map, converter_filename)
+        except IndexError:
             REC.attach.append((tb_tuples(callsite_tb), cause_metadata, cause_message, source_map,
-                               converter_filename, res))
-    RecordingMetadata.__name__ = real_meta.__name__
-    RecordingMetadata.__qualname__ = real_meta.__qualname__
-    api._ErrorMetadata = RecordingMetadata
-    _installed['meta'] = real_meta
+                               converter_filename, 'crash'))
+            raise
+        REC.attach.append((tb_tuples(callsite_tb), cause_metadata, cause_message, source_map,
+                           converter_filename, self))
+    error_utils.ErrorMetadataBase.__init__ = recording_init
+    _installed['init'] = real_init
 
     real_conv = api._convert_actual
 
@@ -191,7 +186,8 @@ def uninstall_hooks():
     from malt.pyct import origin_info
     if not _installed:
         return
-    api._ErrorMetadata = _installed['meta']
+    from malt.pyct import error_utils
+    error_utils.ErrorMetadataBase.__init__ = _installed['init']
     api._convert_actual = _installed['conv']
     origin_info.create_source_map = _installed['csm']
     _installed.clear()
